@@ -26,6 +26,8 @@ fn main() {
         "c06-emit" => big_stack(move || c06::emit(&rest2)),
         "grammar-list" => big_stack(move || c01::grammar_list(&rest2)),
         "lc-observe" => linecol::observe(rest),
+        "pratt-replay" => pratt::replay(rest),
+        "pratt-emit" => pratt::emit(rest),
         "c01-replay" => big_stack(move || c01::replay(&rest2)),
         "stack-replay" => stack::replay(rest),
         "stack-emit" => stack::emit(rest),
